@@ -156,6 +156,12 @@ impl<Effect, Event> Command<Effect, Event> {
     // Run all tasks until all of them are pending
     pub(crate) fn run_until_settled(&mut self) {
         if self.was_aborted() {
+            // Tasks which were spawned but never started (e.g. the parts of `Command::all`
+            // or `and` of a command aborted before its first poll) are dropped too,
+            // otherwise they stay in the spawn queue, with everything they captured,
+            // for as long as the command value lives
+            while self.spawn_queue.try_recv().is_ok() {}
+
             self.tasks.clear();
 
             return;
